@@ -327,6 +327,9 @@ def configs(pid, tr):
         a3b2 = alphabet(3, [1, 2], [3], ["a"], ack_about=[1, 2, 9], msg_from=[1])
         res.append((dict(name="n3b2out", N=3, Byz=[1, 2], Outsiders=[9], Contents=["a"], AdvSet=a3b2, MaxInject=3, MaxCopies=1, Deliveries=False),
                     "sets", {}))
+        # two rounds of one Byzantine sender: payloads only (the honest parties acknowledge), every set of <= 5
+        a3r = alphabet(3, [1], [2, 3], ["a", "b"], rounds=(1, 2), ack_from=[])
+        res.append((dict(name="n3r2", N=3, Byz=[1], Contents=["a", "b"], Rounds=[1, 2], AdvSet=a3r, MaxInject=5, MaxCopies=1, Deliveries=False), "sets", {}))
         a3m = alphabet(3, [1], [2, 3], ["a", "b"], ack_from=[])
         res.append((dict(name="n3dup4", N=3, Byz=[1], Contents=["a", "b"], AdvSet=a3m, MaxInject=4, MaxCopies=2, Deliveries=False), "sets", {}))
         a3e = alphabet(3, [1], [2, 3], ["a", "b"])
@@ -410,6 +413,17 @@ def set_variants(paths):
                     grp = sorted(by_to[k], key=lambda e: json.dumps(e["m"], sort_keys=True))
                     crossed += grp if i % 2 == 0 else grp[::-1]
                 res.append(sends + crossed)
+                # drained after every step, one content after the other (a sender that finishes one payload, moves on to later rounds and
+                # then comes back with another payload for an earlier round), and one round after the other
+                def pl(e):
+                    m = e["m"]
+                    return m.get("pl") or m.get("d") or {}
+                for key in (lambda e: (str(pl(e).get("x")), pl(e).get("r", 0), json.dumps(e["m"], sort_keys=True)),
+                            lambda e: (pl(e).get("r", 0), str(pl(e).get("x")), json.dumps(e["m"], sort_keys=True))):
+                    v = []
+                    for e in sends + sorted(injs, key=key):
+                        v += [e, {"e": "drain"}]
+                    res.append(v)
     return res
 
 
